@@ -26,7 +26,7 @@ def gen_cfg(rng, tier: str, big: bool = False, backing: str | None = "maybe") ->
     version = rng.choice([2, 3, 3, 3])
     cbs = [9, 9, 10, 12, 12, 14, 16, 16] if tier == "quick" else [9, 10, 11, 12, 13, 14, 15, 16, 16, 17, 18, 20, 21]
     cb = rng.choice(cbs)
-    if big and rng.random() < 0.15:
+    if big and rng.random() < 0.3:
         cb = rng.choice([20, 21, 21])  # the largest cluster sizes only make sense on large disks
     extl2 = version == 3 and cb >= 14 and rng.random() < 0.5
     if version == 3 and rng.random() < 0.25 and not extl2:
@@ -62,7 +62,7 @@ def gen_cfg(rng, tier: str, big: bool = False, backing: str | None = "maybe") ->
         "meta_alloc": rng.choice(["seq", "rev", "perm"]),
         "data_far": rng.choice([0, 0, 0, 0, 1 << 32, 1 << 40, (1 << 32) + (1 << 20)]) if not big else rng.choice([1 << 32, 1 << 40, 1 << 44]),
         "l2_far": rng.choice([0, 0, 0, 1 << 32, 1 << 41]),
-        "comp_far": rng.choice([0, 0, 0, 1 << 32, 1 << 42]),
+        "comp_far": rng.choice([0, 0, 0, 1 << 32, 1 << 42]), "tight_eof": rng.random() < 0.3, "data_file_named": rng.random() < 0.65,
         "comp_level": rng.choice([1, 6, 9]), "comp_pack": rng.choice(["tight", "sector", "odd"]),
         "l1_extra": rng.choice([0, 0, 1, 5]),
         "snap_far": rng.choice([0, 0, 0, 1 << 32, 1 << 42]),
@@ -230,7 +230,7 @@ def render(cfg: dict, roots: list[Root], name: str = "disk.qcow2") -> Image:
         f.write(cpos, blob)
         comp_desc[(ri, u)] = COMPRESSED | (nsec << x) | cpos
         cpos += len(blob)
-    if comp_items:
+    if comp_items and not cfg.get("tight_eof"):
         put_poison(f, align_up(cpos, 512), 1024, 0xC0DE)
     file_end = max(align_up(cpos, cs), cursor, far_meta_end)
 
@@ -327,8 +327,8 @@ def render(cfg: dict, roots: list[Root], name: str = "disk.qcow2") -> Image:
     exts = list(cfg["exts"])
     if cfg["backing"] and cfg["backing"]["format"]:
         exts.insert(0, ["backing_fmt", cfg["backing"]["format"]])
-    if df is not None:
-        exts.append(["data_file", "disk.data"])
+    if df is not None and cfg.get("data_file_named", True):
+        exts.append(["data_file", "disk.data"])  # the name extension is optional: the feature bit alone says there is a data file
     ext_start = hl
     for e in exts:
         if e[0] == "backing_fmt":
@@ -394,6 +394,11 @@ def render(cfg: dict, roots: list[Root], name: str = "disk.qcow2") -> Image:
             if extl2:
                 img.field(f"qcow2.l2_{ri}_{t}[{i}].bitmap", name, p + esz * i + 8, 8, ">", "int")
     f.set_length(max(f.length, file_end, cs))
+    if cfg.get("tight_eof") and comp_desc and f._ext and f._ext[-1][1] == cpos and cpos > cs:
+        # the image file ends with the last byte of the last compressed cluster (qemu packs them byte-wise and does not pad the
+        # file): that cluster's descriptor counts whole sectors and so names a range reaching past the end of the file
+        f.set_length(cpos)
+        img.info["tight_eof"] = True
     img.files[name] = f
     if df is not None:
         df.set_length(max(df.length, data_base + n_d * cs))
